@@ -50,3 +50,14 @@ func vStubErrorsAs(err error, target any) bool {
 	}
 	return false
 }
+
+// fastrand chooses the padding length. The executor explores the smallest
+// three values (and, in the thorough tier, the largest one) instead of all.
+//
+//verif:replace github.com/valyala/fastrand.Uint32n
+func vStubFastrandUint32n(n uint32) uint32 {
+	v := vEnv32()
+	vAssume(v < n)
+	vAssume(v < 3 || (vTier() > 0 && v == n-1))
+	return v
+}
